@@ -106,8 +106,9 @@ FirstN(S, n) == LET q == SortedSeq(S) IN {q[i] : i \in 1 .. (IF Len(q) < n THEN 
 (* no halfface of the tetrahedron (v1 v2 v3 v4) that already exists belongs  *)
 (* to a cell: adding it keeps every halfface in at most one cell            *)
 TetFreeToAdd(st, v) ==
-  \A tri \in {<<v[1], v[2], v[3]>>, <<v[1], v[3], v[4]>>, <<v[1], v[4], v[2]>>, <<v[2], v[4], v[3]>>} :
-     LET hf == FindHalffaceV(st, tri) IN hf = -1 \/ At(st.inc, hf) = -1
+  /\ \A tri \in {<<v[1], v[2], v[3]>>, <<v[1], v[3], v[4]>>, <<v[1], v[4], v[2]>>, <<v[2], v[4], v[3]>>} :
+        LET hf == FindHalffaceV(st, tri) IN hf = -1 \/ At(st.inc, hf) = -1
+  /\ \A c \in LiveC(st) : CellVertSet(st, c) # Rng(v)      \* a simplicial complex has one cell per vertex set
 
 XCallsOf(st, op, key) ==
   CASE op = "collapse_edge" ->
@@ -211,6 +212,7 @@ XModelCheck(pre, c, m) ==
   IF m.err # "" THEN "NoInternalError:" \o m.err
   ELSE IF ~WellFormed(m) THEN "WellFormed"
   ELSE IF ~CountersConsistent(m) THEN "CountersConsistent"
+  ELSE IF Manifoldish(pre) /\ ~Manifoldish(m) THEN "HalffaceInTwoCells:" \o c.op
   ELSE IF Manifoldish(m) /\ ~CacheIsInverse(m) THEN "CacheIsInverse"
   ELSE IF Kind = "tet" THEN
        (IF ~TetShape(m) THEN "C15:TetShape"
@@ -247,7 +249,7 @@ XStep(c, last) ==
   /\ UNCHANGED org
 
 XNext ==
-  /\ ~done /\ bad = ""
+  /\ ~done /\ bad = "" /\ Manifoldish(s)      \* a halfface in two cells: outside every contract, not extended
   /\ \/ Len(path) < Depth - 1 /\ \E c \in XCalls(s, HistOps, org.key) : XStep(c, FALSE)
      \/ Len(path) < Depth /\ \E c \in XCalls(s, TargetOps, org.key) : XStep(c, TRUE)
 XSpec == XInit /\ [][XNext]_vars
@@ -255,7 +257,7 @@ XSpec == XInit /\ [][XNext]_vars
 (* simulation: pick an operation of the alphabet at random, then one of its *)
 (* in-contract argument tuples (collect_garbage when it has none)           *)
 XSimNext ==
-  /\ bad = "" /\ Len(path) < Depth - 1
+  /\ bad = "" /\ Len(path) < Depth - 1 /\ Manifoldish(s)
   /\ \E op \in {RandomElement(HistOps)} :      \* bound once (a LET would be re-evaluated)
        LET cs == XCallsOf(s, op, org.key) IN
        \E c \in {RandomElement(IF Cardinality(cs) = 0 THEN {K0("collect_garbage")} ELSE cs)} : XStep(c, FALSE)
